@@ -12,7 +12,7 @@ pub mod thread {
 }
 
 pub mod sync {
-    // `Arc`, `Weak`, `Once`, … stay std's (loom's `Arc` cannot be unsized to `Arc<dyn Fn>`).
+    // `Arc`, `Weak`, `Once`, `Barrier` … stay std's (loom's `Arc` cannot be unsized to `Arc<dyn Fn>`).
     pub use loom::sync::{
         Condvar, Mutex, MutexGuard, RwLock, RwLockReadGuard, RwLockWriteGuard,
     };
@@ -55,4 +55,88 @@ pub mod sync {
     }
 
     unsafe impl<T: Sync + Send, F> Sync for LazyLock<T, F> {}
+
+    /// A `OnceLock` built on loom's `Mutex` and `Condvar`, so that blocking in `wait` /
+    /// `get_or_init` is visible to the scheduler (a waiter nobody will ever wake is reported as a
+    /// deadlock instead of hanging the exploration).
+    pub struct OnceLock<T> {
+        done: loom::sync::Mutex<bool>,
+        cv: loom::sync::Condvar,
+        value: std::cell::UnsafeCell<Option<T>>,
+    }
+
+    unsafe impl<T: Sync + Send> Sync for OnceLock<T> {}
+    unsafe impl<T: Send> Send for OnceLock<T> {}
+
+    impl<T> Default for OnceLock<T> {
+        fn default() -> Self {
+            Self::new()
+        }
+    }
+
+    impl<T: std::fmt::Debug> std::fmt::Debug for OnceLock<T> {
+        fn fmt(&self, f: &mut std::fmt::Formatter<'_>) -> std::fmt::Result {
+            f.debug_tuple("OnceLock").field(&self.get()).finish()
+        }
+    }
+
+    impl<T> OnceLock<T> {
+        pub fn new() -> Self {
+            OnceLock {
+                done: loom::sync::Mutex::new(false),
+                cv: loom::sync::Condvar::new(),
+                value: std::cell::UnsafeCell::new(None),
+            }
+        }
+
+        fn value_ref(&self) -> &T {
+            // Only called after `done` was observed true under the mutex: the value is never
+            // written again.
+            unsafe { (*self.value.get()).as_ref().unwrap() }
+        }
+
+        pub fn get(&self) -> Option<&T> {
+            let done = *self.done.lock().unwrap();
+            if done {
+                Some(self.value_ref())
+            } else {
+                None
+            }
+        }
+
+        pub fn set(&self, value: T) -> Result<(), T> {
+            let mut done = self.done.lock().unwrap();
+            if *done {
+                return Err(value);
+            }
+            unsafe { *self.value.get() = Some(value) };
+            *done = true;
+            self.cv.notify_all();
+            Ok(())
+        }
+
+        pub fn get_or_init<F: FnOnce() -> T>(&self, f: F) -> &T {
+            let mut done = self.done.lock().unwrap();
+            if !*done {
+                unsafe { *self.value.get() = Some(f()) };
+                *done = true;
+                self.cv.notify_all();
+            }
+            drop(done);
+            self.value_ref()
+        }
+
+        pub fn wait(&self) -> &T {
+            let mut done = self.done.lock().unwrap();
+            while !*done {
+                done = self.cv.wait(done).unwrap();
+            }
+            drop(done);
+            self.value_ref()
+        }
+
+        pub fn into_inner(self) -> Option<T> {
+            self.value.into_inner()
+        }
+    }
 }
